@@ -175,6 +175,17 @@ CLAIMED = {
              "the discretisation error, measured per parameter set (bound 2e-2). The draw defect of the pinned tree was repaired (fix: commit).",
         technique="Lean 4 algebraic proofs (CDF identities) + deterministic quantile / interval grid against closed forms",
         ref="7/C11"),
+    "C17": dict(
+        text="Lean model of StochasticAtomGraph.generate (node offsets per element and token, static edges both ways, _add_stochastic_bonds incl. the two parallel edges "
+             "per listed pair, _add_transition_bonds incl. the empty-terminal-reads-as-$ quirk) compared node by node and edge by edge (multiset, weights) with the real "
+             "graph, with and without Schulz-Zimm distributions. Theorems: every stochastic / termination edge leaves a repeat-unit descriptor towards a compatible one "
+             "with the source's bond order and the partner's positive weight (C17_stochastic_edges); every transition edge joins repeat-unit (or plain token) descriptors "
+             "admitted by the terminals, never leaving an end group (C17_transition_edges, the repaired behaviour); static edges and nodes of a token. Oracle: a graph "
+             "built independently from the parsed description (missing / extra edges, kinds, weights).",
+        note="Atoms and inner bonds of a token are RDKit's reading of its fragment (parameters of the model). KNOWN-FINDING listed-pair-gets-stochastic-and-termination-edge "
+             "(needs the author's intent). One defect (transition edge leaving an end group) repaired by a fix: commit.",
+        technique="Lean 4 edge-characterisation proofs + node/edge differential check + independent spec graph",
+        ref="7/C17"),
 }
 
 NOT_YET = {}
